@@ -216,7 +216,7 @@ def compute_oks(
     # of Eq. 1.
     missing_gt = np.any(np.isnan(points_gt), axis=-1)  # (n_gt, n_nodes)
     assert missing_gt.shape == (n_gt, n_nodes)
-    ks[np.expand_dims(missing_gt, axis=1)] = 0
+    ks[np.broadcast_to(np.expand_dims(missing_gt, axis=1), ks.shape)] = 0
 
     # Compute the OKS.
     n_visible_gt = np.sum(
